@@ -29,6 +29,11 @@ func bgAnalyse(c *Ctx, name string) *bgInfo {
 	if fn == nil {
 		return nil
 	}
+	return bgAnalyseFn(c, fn, name)
+}
+
+// bgAnalyseFn analyses fn (which may be an unexported helper that an API function delegates to) under the given report name.
+func bgAnalyseFn(c *Ctx, fn *ssa.Function, name string) *bgInfo {
 	bi := &bgInfo{fn: fn, name: name, derived: map[ssa.Value]bool{}, spawnHow: map[*ssa.Function]string{}, spawnAt: map[*ssa.Function]ssa.Instruction{}}
 	instrs(fn, func(b *ssa.BasicBlock, i int, in ssa.Instruction) {
 		call, ok := in.(*ssa.Call)
